@@ -60,6 +60,31 @@ pub mod memchr {
         unimplemented!()
     }
 
+    // memchr::memchr / memrchr: "Search for the first (last) occurrence of a byte in a slice."
+    #[verifier::external_body]
+    pub fn memchr(needle: u8, haystack: &[u8]) -> (r: Option<usize>)
+        ensures
+            match r {
+                None => forall|i: int| 0 <= i < haystack@.len() ==> haystack@[i] != needle,
+                Some(k) => k < haystack@.len() && haystack@[k as int] == needle
+                    && forall|i: int| 0 <= i < k ==> haystack@[i] != needle,
+            },
+    {
+        unimplemented!()
+    }
+
+    #[verifier::external_body]
+    pub fn memrchr(needle: u8, haystack: &[u8]) -> (r: Option<usize>)
+        ensures
+            match r {
+                None => forall|i: int| 0 <= i < haystack@.len() ==> haystack@[i] != needle,
+                Some(k) => k < haystack@.len() && haystack@[k as int] == needle
+                    && forall|i: int| k < i < haystack@.len() ==> haystack@[i] != needle,
+            },
+    {
+        unimplemented!()
+    }
+
     impl<'h> Memchr<'h> {
         #[verifier::external_body]
         pub fn count(self) -> (r: usize)
